@@ -377,3 +377,25 @@ Example C01_dyn_abstentions :
   abstentions jr_tables dyn_rec
   = [(B "JSONGetTime", [1; 2; 11]); (B "JSONGetDuration", [1; 2; 10])]%nat.
 Proof. vm_compute. reflexivity. Qed.
+
+(* ---- leaf-struct repairs of the pinned tree (found by the leaf-struct probes of the correspondence) ---- *)
+From AP.Proofs Require NlvP.
+(* Actor.MarshalJSON wrote publicKey only for a key with an id or key material: a key that names only its owner was dropped
+   (the decoder reads it, gob keeps it).  The guard of the write table is recognised by its source text (pubkey_guard_src:
+   a tree with the old test no longer satisfies C01_tables_recognised) and evaluated as "id, owner or key material". *)
+Theorem C01_pubkey_owner_only_pinned_refuted :
+  exists k, pubkey_guard (Some k) = true /\ pubkey_guard_pinned (Some k) = false.
+Proof. exists (FPubKey [] (B "https://example.com/actors/alice") []). split; vm_compute; reflexivity. Qed.
+
+(* the guard as the model evaluates it is the guard of this run's Actor table *)
+Theorem C01_pubkey_guard_is_the_tables : forall fs b,
+  eval_guard fs b (GOther pubkey_guard_src) = Some (pubkey_guard (getf F_PublicKey fs)).
+Proof. intros fs b. unfold eval_guard. rewrite AP.Proofs.NlvP.bytes_eqb_refl. reflexivity. Qed.
+
+(* GetAPSource handed the decoded bytes of source.mediaType to MimeType.UnmarshalJSON, which strips quotes: a media type
+   ending in a quoted parameter value (text/x-markdown; charset="utf-8") came back without its last byte.  The read
+   tables no longer recognise that shape (known_read_guards); the repaired reader converts the bytes (MimeType). *)
+Example C01_source_media_type_shape :
+  existsb (bytes_eqb (B "len(x) > 0;UnmarshalJSON")) known_read_guards = false /\
+  existsb (bytes_eqb (B "MimeType")) known_convs = true.
+Proof. split; vm_compute; reflexivity. Qed.
